@@ -11,6 +11,10 @@ CLAIMED = {
    text="Seeded histories of the public Driver memory API (Init, InitWithExistingPID, SelectGPU, CreateUnifiedGPU, AllocateMemory, AllocateUnifiedMemory, FreeMemory, Remap, Distribute) from several contexts/processes on small device memories, default allocator at page sizes 2^12-2^16 and buddy allocator (verif hook) at 4 KiB, with capacity exhaustion as the injected fault; after every call the real vm.PageTable is compared with a reference model (live pages mapped, page-aligned, inside the recorded device, pairwise disjoint, unrelated mappings unchanged, freed pages unmapped, in-capacity calls never crash, over-capacity calls fail with 'out of memory'). The schedule dimension is the interleaving of the contexts' calls (the allocator serialises on a mutex). Three genuine defects found and repaired (fix: commits), one recorded (buddy allocator aliasing). Exploration, not proof.",
    note="Trusted: akita vm.PageTable, the reference model; only valid calls are generated; buddy-allocator out-of-memory is treated as legal fragmentation; migration preparation is covered with C19's driver harness.",
    ref="6 (C10), 12"),
+ "C11": dict(
+   text="Seeded deterministic simulation of whole platforms - emulation (direct-storage copy path, 1-4 GPUs) and the shipped r9nano/mi300a timing platforms (DMA path through command processor, DMA engine, write-back caches and DRAM; 1-2 GPUs) - driven through the real driver API by one application thread under the goroutine controller's canonical schedule, same-time events permuted in half of the timing runs: drawn copy sequences (sub-ranges crossing page, cache-line and GPU boundaries, four element types, buffers distributed over GPUs) interleaved with copy kernels, some left in flight on another GPU; oracle = shadow byte array (every D2H and the final dump of every buffer, bytes outside the touched ranges included), liveness exact (deadlock classified by the pending driver command). One genuine defect found and repaired (flush answered after the copy), one recorded (direct-storage path on timing platforms ignores dirty caches). Exploration, not proof.",
+   note="Trusted: synctest, the controller, the shadow model; one application thread, per-buffer queues; kernel ranges 4-byte aligned. Completion-before-subrequests on the DMA path is checked through data and liveness, not on the DMA port history.",
+   ref="6 (C11), 12"),
  "C12": dict(
    text="Seeded deterministic simulation of the real driver with all three kinds of goroutine real (1-3 application goroutines, runAsync, runEngine) on emulation platforms (1-4 GPUs, plain and unified devices) and the shipped R9 Nano timing platform, inside a testing/synctest bubble under a controlled goroutine scheduler: every goroutine parks at yield points (driver hooks, between engine events) and the controller draws who runs next, one at a time; safety oracle from data (queued chains H2D/D2D-kernel/H2D/D2D-kernel/D2H/D2H prove FIFO order, visibility of predecessors' effects and that drain returns after completion; guard zones prove isolation), liveness oracle exact (every goroutine durably blocked with work unfinished = deadlock, classified by what is pending). Three genuine defects found and repaired (fix: commits: engine-exit race, lost wake-up - the pinned suite's intermittent TestTensor hang - and a dispatcher panic with concurrent kernels). Exploration, not proof; the race-detector clause is not decided by this check.",
    note="Trusted: testing/synctest's notion of durable blocking, the controller, yield points outside critical sections and engine events; faithful engine order. Data races (the property's last clause) are outside what the controlled scheduler decides.",
@@ -54,7 +58,6 @@ PENDING = {
  "C02": "check not built yet (planned: emu-vs-timing differential simulation, DESIGN 6 C02)",
  "C05": "check not built yet (planned: host-schedule exploration under the goroutine controller, DESIGN 6 C05)",
  "C08": "check not built yet (planned: probe kernels on whole platforms, DESIGN 6 C08)",
- "C11": "check not built yet (planned: copy sequences against a shadow byte array, DESIGN 6 C11)",
  "C14": "check not built yet (planned: CU in a box, DESIGN 6 C14)",
 }
 
